@@ -48,6 +48,10 @@ def lock_class(data_ty):
 #   ("phi", (exprs...)) ("var", local) ("unknown", why)
 
 TRANSPARENT_CALLS = (
+    "dashmap::mapref::one::Ref::<'a, K, V, S>::value",
+    "dashmap::mapref::one::RefMut::<'a, K, V, S>::value",
+    "dashmap::mapref::one::RefMut::<'a, K, V, S>::value_mut",
+    "dashmap::mapref::multiple::RefMulti::<'a, K, V, S>::value",
     "std::option::Option::<T>::as_ref",
     "std::option::Option::<T>::as_mut",
     "std::option::Option::<T>::as_deref",
@@ -541,7 +545,15 @@ class Fn:
         return "%s:%s" % (self.file, line)
 
 
+OVERFLOW_OPS = {"AddWithOverflow": "Add", "SubWithOverflow": "Sub", "MulWithOverflow": "Mul"}
+
+
 def project(base, name):
+    if base[0] == "binop" and base[1] in OVERFLOW_OPS:
+        # checked arithmetic: (a op b).0 is the result, .1 the overflow flag
+        if name == "0":
+            return norm_binop(OVERFLOW_OPS[base[1]], base[2], base[3])
+        return ("overflow", base)
     if base[0] == "agg":
         for n, x in base[3]:
             if n == name:
